@@ -43,7 +43,7 @@ LEVEL = "model_checking"
 RULE = (
     "U-CONF slot grammar (Boolean fluents b, p(T), q(S); 2 actions; conditional/forall effects; "
     "negative, disjunctive, quantified conditions; instances with two effects on one ground fluent "
-    "of one ground action are dropped) x ALL non-empty sets of <= 3 possible initial states over the "
+    "of one ground action are dropped; plus the level-3 family of conditional-effect chains, see bounds) x ALL non-empty sets of <= 3 possible initial states over the "
     "uncertain ground fluents (see bounds), explicit and - where expressible with <= 3 constraints - as "
     "ContingentProblem; states = product nodes (compiled state, belief) expanded + beliefs expanded, "
     "transitions = compiled/original ground-action applications, traces = compiled goal nodes whose "
@@ -77,12 +77,16 @@ def _kk(tier):
 
 
 def _uncertain(tier, level):
+    if level == 3:
+        return ["U0", "U2"]
     if tier == "quick":
         return ["U0"]
     return ["U0", "U1", "U2", "U3"] if level < 2 else ["U0"]
 
 
 def _max_sigma(tier, level):
+    if level == 3:
+        return 2
     if tier == "quick" and level >= 2:
         return 2
     return 3
@@ -100,8 +104,9 @@ def bounds(tier):
         "k": _k(tier),
         "k_compiled": _kk(tier),
         "deviation_plan": uc.conf_plan(tier),
-        "uncertain_sets": {str(l): _uncertain(tier, l) for l in (0, 1, 2)},
-        "max_states_per_set": {str(l): _max_sigma(tier, l) for l in (0, 1, 2)},
+        "uncertain_sets": {str(l): _uncertain(tier, l) for l in (0, 1, 2, 3)},
+        "max_states_per_set": {str(l): _max_sigma(tier, l) for l in (0, 1, 2, 3)},
+        "level_3": "effect chains: %d instances (a1.eff1 conditional x a2.eff1 removed x a2.eff2 conditional)" % len(chain_ids()),
         "pool_sizes": {s: len(pl) for s, pl in uc.CONF_POOLS.items()},
     }
 
@@ -117,9 +122,21 @@ def sigmas(tier, level):
     return out
 
 
+def chain_ids():
+    """level-3 family "effect chains": a2 loses its default effect and gets a conditional effect,
+    a1's default effect is replaced by a conditional one - every pair of conditional effects, so
+    that one action's conditional effect can feed or cut the other's condition (the relevance
+    relation behind the dominated-state reduction needs such chains to differ from its
+    one-step approximation)."""
+    cond = lambda x: bool(x) and any(e[3] is not None for e in x)
+    c1 = [i for i, (x, _c) in enumerate(uc.CONF_POOLS["a1.eff1"]) if cond(x)]
+    c2 = [j for j, (x, _c) in enumerate(uc.CONF_POOLS["a2.eff2"]) if cond(x)]
+    return [(3, (("a1.eff1", i), ("a2.eff1", 0), ("a2.eff2", j))) for i in c1 for j in c2]
+
+
 def shards(tier, seed):
-    ids = uc.conf_case_ids(tier)
-    per = {0: 1, 1: 48, 2: 160} if tier == "quick" else {0: 1, 1: 64, 2: 512}
+    ids = uc.conf_case_ids(tier) + chain_ids()
+    per = {0: 1, 1: 48, 2: 160, 3: 48} if tier == "quick" else {0: 1, 1: 64, 2: 512, 3: 48}
     return su.chunk_cases(ids, seed, per_level_chunks=per)
 
 
